@@ -30,6 +30,8 @@ module N :
 
   val max : coq_N -> coq_N -> coq_N
 
+  val size : coq_N -> coq_N
+
   val pos_div_eucl : positive -> coq_N -> coq_N * coq_N
 
   val div_eucl : coq_N -> coq_N -> coq_N * coq_N
